@@ -64,7 +64,7 @@ def run(facts, tier):
     # document order of an edited document: the order vector is only as good as the indices used to update it
     import staleidx
     from props import c14
-    staleidx.rule(facts, res, "R07-3", lambda f: f["crate"] in ("xml_info", "xml_dom"), floor=7)
+    staleidx.rule(facts, res, "R07-3", lambda f: f["crate"] in ("xml_info", "xml_dom"), floor=5)
     c14.c14_8(facts, res, "R07-4")
     fresh_key_rule(facts, res, "R07-5")
     no_id_in_evaluator(facts, res, "R07-6")
